@@ -60,6 +60,9 @@ CHECKS = {
  "C16": ("exploration", "property-based testing: exhaustive over vector lengths 0..=130, random values, scalar f64 reference and algebraic relations",
          "Every length 0..=130 is enumerated with random values; round trip compared bit-exactly with zero padding; distances against scalar f64 formulas on the common packed prefix; symmetry, identity, triangle inequality, cosine range/parallel/opposite/scale relations.",
          "Empty vector may pack to 0 or 8 zeros (statement does not pin it): either reading accepted consistently per case. Relative tolerance 1e-4.", "3/C16"),
+ "C18": ("translation_validation", "differential property testing (Hypothesis): generated API scripts executed through the Python module built from the current tree and through the Rust API; traces compared exactly",
+         "Hypothesis-generated scripts (boxes with every getter/setter, clipping, nms, three Kalman filters, constraints, the four trackers incl. expiry-boundary probes, histories, batch requests/results; optional constructor arguments individually omitted) run through `similari.so` built by cargo from /repo's working tree and through a Rust driver calling the wrapped API with the documented defaults; traces must be identical (batch ids up to renaming). Failures are shrunk by Hypothesis and saved as replay.",
+         "The defaults table in the driver is the reference for 'documented defaults'. Tie-free tracker inputs by construction (well separated objects). Python: python3-vt (hypothesis 6.168).", "3/C18"),
  "C19": ("exploration", "property-based testing: round trips, polygon vs reference rotation, equality relation laws across the EPS boundary",
          "Generated boxes over 1e-2..1e4: ltwh<->universal round trip within ulps, polygon vertices/area/centre/radius against the reference rotation, equality reflexive/symmetric/threshold-correct for single-coordinate perturbations in both argument orders, normalize_angle range and equivalence.",
          "Equality threshold is three-valued inside [0.9,1.1] EPS. Trusts f64 sin/cos.", "3/C19"),
